@@ -38,15 +38,21 @@ EXPLANATION = (
     "no other caller or reference, nothing between update() and it replaces the map, MutableFileNode.repair goes "
     "through Repairer.start, and MutableChecker.check maps in an all-servers mode as well - for MutableChecker itself and "
     "for every subclass that inherits check() (the mode expression is folded per class). "
+    "(9) the version the repairer asks MutableFileNode.download_version for is the version whose contents it gets: download_version "
+    "hands its `version` to get_readable_version, that one to _get_version_from_servermap, that one to its selection callback; the "
+    "selection callback (abstract interpretation over 'was a version asked for' x 'what the result variable holds', all paths) "
+    "returns (servermap, v) with v still the requested version whenever one was asked for - a requested version that is not "
+    "recoverable in the (re-fetched, narrower MODE_READ) servermap makes the request fail, it is never replaced by that map's best "
+    "version; the MutableFileVersion is built for component 1 of that result, stores it as self._version (never re-bound) and "
+    "_read hands self._version to Retrieve. "
     "Undecided: post-repair share counts / placement beyond update_goal() being run (what update_goal chooses, whether the "
     "writes succeed, that get_results reports success unconditionally), an unrecoverable version with the same seqnum as the best one, "
-    "the completion policy of the mapupdate after the initial queries were sent (that every queried server is waited for). "
-    "FINDING (C14.8, construct allmydata.mutable.checker:MutableCheckAndRepairer): SERVERMAP_MODE = MODE_WRITE is a bounded "
-    "search (N+k initial servers, stops after k empty servers past the last share), so check_and_repair() reports 'Healthy' "
-    "in its pre- and post-repair results, and starts no repair, while another - even a newer, even a recoverable - version "
-    "sits on servers beyond the boundary; the plain check() of the same grid reports 'Unhealthy'. 'Healthy exactly when .. no "
-    "other versions' is therefore violated for the check-and-repair verdict. Repair: SERVERMAP_MODE = MODE_REPAIR (all "
-    "servers, privkey fetched).")
+    "the completion policy of the mapupdate after the initial queries were sent (that every queried server is waited for), that "
+    "Retrieve decodes the verinfo it is given (C-properties of the retrieve path), that the requested version is checked for "
+    "recoverability before it is returned (a miss there makes the download fail, it does not change contents). "
+    "FIXED FINDING (C14.8, construct allmydata.mutable.checker:MutableCheckAndRepairer, repo commit 08c5e2f): SERVERMAP_MODE was "
+    "MODE_WRITE, a bounded search (N+k initial servers, stops after k empty servers past the last share), so check_and_repair() "
+    "reported 'Healthy' and started no repair while another version sat on servers beyond the boundary; it now maps in MODE_REPAIR.")
 TECHNIQUE = "static analysis: CFG x abstract-state monitor (constant propagation over branch facts), must-precede gates, Deferred chain order, who-may-call"
 
 CHK = "mutable.checker:MutableChecker"
@@ -422,6 +428,129 @@ def _all_server_modes(idx, r):
     if not vals or not all(isinstance(v, ast.Name) and v.id == "mode" for v in vals) or "mode" not in ini.params:
         raise AnchorVanished("self.mode = mode in ServermapUpdater.__init__")
     return full - other
+
+
+# ---- the requested version (C14.9) ------------------------------------------------------------------------------
+# Abstract values of a local with respect to the version the caller asked for (`orig`, the value of the tracked
+# parameter / free variable on entry):
+#   "orig"  equal to the requested value
+#   "sub"   equal to the requested value whenever that one is truthy (a fallback may have been substituted for "none asked")
+#   "none"  None / a falsy constant
+#   absent  anything else
+# and `req`: what the path has established about the request: "T" a version was asked for, "F" none was, "?" untested.
+
+def _is_none_const(e):
+    return isinstance(e, ast.Constant) and (e.value is None or e.value is False)
+
+
+def _req_abs(e, env):
+    if isinstance(e, ast.Name):
+        return env.get(e.id, "other")
+    if isinstance(e, ast.Constant):
+        return "none" if (e.value is None or e.value is False) else "other"
+    if isinstance(e, ast.BoolOp) and isinstance(e.op, ast.Or) and _req_abs(e.values[0], env) in ("orig", "sub"):
+        return "sub"                 # `v or fallback`
+    if isinstance(e, ast.IfExp):
+        t, a, b = e.test, e.body, e.orelse
+        if isinstance(t, ast.UnaryOp) and isinstance(t.op, ast.Not):
+            t, a, b = t.operand, b, a
+        nm = _req_tested_name(t)
+        if nm is not None:
+            name, pol = nm
+            if not pol:
+                a, b = b, a
+            if env.get(name) in ("orig", "sub") and _req_abs(a, env) in ("orig", "sub"):
+                return "sub"         # `v if v else fallback`
+        va, vb = _req_abs(a, env), _req_abs(b, env)
+        if va == vb:
+            return va
+    return "other"
+
+
+def _req_tested_name(t):
+    """(name, polarity): the atomic test `t` is true exactly when `name` is (polarity True) / is not (False) a version."""
+    if isinstance(t, ast.Name):
+        return t.id, True
+    if isinstance(t, ast.Compare) and len(t.ops) == 1 and isinstance(t.ops[0], (ast.Is, ast.IsNot, ast.Eq, ast.NotEq)):
+        a, b = t.left, t.comparators[0]
+        if isinstance(b, ast.Name) and _is_none_const(a) and a.value is None:
+            a, b = b, a
+        if isinstance(a, ast.Name) and isinstance(b, ast.Constant) and b.value is None:
+            return a.id, isinstance(t.ops[0], (ast.IsNot, ast.NotEq))
+    return None
+
+
+def _request_monitor(fn, tracked, targets):
+    """Follow the requested version `tracked` (a parameter or a free variable of `fn`) through fn on every path.
+    targets(node) -> [(expr, what)]: expressions that have to denote the requested version at that node whenever a version
+    was asked for.  Returns (number of product states, [(node, expr, what, abstract value, req, witness)])."""
+    cfg = fn.cfg()
+
+    def transfer(n, lab, nxt, st):
+        req, envt = st
+        if lab == "exc":
+            return None
+        env = dict(envt)
+        if n.kind == "test" and isinstance(lab, tuple) and lab[0] in ("T", "F"):
+            tn = _req_tested_name(n.ast)
+            if tn is not None:
+                name, pol = tn
+                pol = pol == (lab[0] == "T")
+                a = env.get(name)
+                if a == "orig":
+                    if req != "?" and (req == "T") != pol:
+                        return None
+                    req = "T" if pol else "F"
+                elif a == "none":
+                    if pol:
+                        return None
+                elif a == "sub" and not pol:
+                    if req == "T":
+                        return None
+                    req = "F"
+        elif n.kind in ("stmt", "iter", "with", "except"):
+            a = n.ast
+            simple = None
+            if n.kind == "stmt" and isinstance(a, ast.Assign) and len(a.targets) == 1 and isinstance(a.targets[0], ast.Name):
+                simple = (a.targets[0].id, _req_abs(a.value, env))
+            elif n.kind == "stmt" and isinstance(a, ast.AnnAssign) and isinstance(a.target, ast.Name) and a.value is not None:
+                simple = (a.target.id, _req_abs(a.value, env))
+            for s in node_stores(n):
+                env.pop(s, None)
+            if n.kind == "stmt" and isinstance(a, (ast.FunctionDef, ast.AsyncFunctionDef, ast.ClassDef)):
+                env.pop(a.name, None)
+            if simple is not None and simple[1] != "other":
+                env[simple[0]] = simple[1]
+        return (req, tuple(sorted(env.items())))
+    init = ("?", ((tracked, "orig"),))
+    visited, parent = explore(cfg, init, transfer)
+    bad, seen = [], set()
+    for (nid, st) in sorted(visited, key=lambda x: (x[0], str(x[1]))):
+        n = cfg.nodes[nid]
+        req, envt = st
+        if req == "F":
+            continue
+        env = dict(envt)
+        for (e, what) in targets(n):
+            v = _req_abs(e, env) if e is not None else "missing"
+            if v in ("orig", "sub"):
+                continue
+            if (nid, what) in seen:
+                continue
+            seen.add((nid, what))
+            bad.append((n, e, what, v, req, witness(cfg, parent, (nid, st))))
+    return len(visited), bad
+
+
+REQ_TXT = {"none": "None", "other": "a different value", "missing": "nothing"}
+
+
+def _tuple_component(fn, fnorm, n, e, param, i):
+    """`e` denotes component i of the parameter `param` (``(a, b) = param`` / ``param[i]``)."""
+    e = _res(fn, fnorm, n, e)
+    return isinstance(e, ast.Subscript) and isinstance(e.value, ast.Name) and e.value.id == param \
+        and isinstance(e.slice, ast.Constant) and e.slice.value == i and not isinstance(e.slice.value, bool) \
+        and not any(param in node_stores(m) for m in fn.cfg().nodes)
 
 
 def run(ctx: Context):
@@ -1506,6 +1635,210 @@ def run(ctx: Context):
             r.require(any(v is c for c in good), nr, nr.loc(n.ast), "MutableFileNode.repair returns %s, not the outcome of Repairer.start" % (
                 src(nr, n.ast.value) if n.ast.value is not None else "None"))
 
+    # -- 9. the version whose contents the repair gets is the version it asked for -------------
+    with ctx.rule("C14.9", "R3/E7", "the version the repairer asks MutableFileNode.download_version for travels unchanged through "
+                  "get_readable_version and _get_version_from_servermap to MutableFileVersion and Retrieve: a version that was asked "
+                  "for is never replaced by another one (e.g. the best version of a narrower servermap); it is returned or the "
+                  "request fails", expected=8) as r:
+        def vpos(fn, what):
+            ps = first_positional_params(fn)
+            if "version" not in ps:
+                raise AnchorVanished("parameter `version` of %s" % what)
+            return ps.index("version")
+
+        def node_of(fn, call):
+            for m in fn.cfg().nodes:
+                if any(c is call for c in node_calls(m, into_lambda=True)):
+                    return m
+            raise AnchorVanished("CFG node of a call in %s" % short(fn))
+
+        def hands_on(fn, callee_tail, pos, what):
+            """every call of `callee_tail` in fn is given fn's own `version` (whenever one was asked for)."""
+            vpos(fn, short(fn))
+            calls = calls_in_func(fn, callee_tail, into_lambda=True)
+            if not calls:
+                raise AnchorVanished("%s(..) in %s" % (callee_tail, short(fn)))
+
+            def targets(m):
+                return [(arg(c, pos, "version"), callee_tail) for c in node_calls(m, into_lambda=True) if any(c is x for x in calls)]
+            nst, bad = _request_monitor(fn, "version", targets)
+            r.count(nst)
+            for c in calls:
+                r.site(fn, c, what)
+            for (m, e, _w, v, req, w) in bad:
+                r.violation(fn, fn.loc(e if e is not None else m.ast), "%s hands %s to %s(..) as the version, not the version it was asked for: "
+                            "the caller (the repairer) gets the contents of whatever version the callee then picks, e.g. the best "
+                            "version of a narrower servermap, and republishes those (path: %s)" % (
+                                short(fn), REQ_TXT[v] if e is None or v != "other" else src(fn, e), callee_tail, w.brief()), w)
+            return calls
+
+        def chain_returned(fn, fnorm, base_calls, last_call, what):
+            """fn returns the Deferred chain that starts at one of base_calls; nothing but `last_call` comes last on it."""
+            rets = [m for m in fn.cfg().find(is_return)]
+            if not rets:
+                raise AnchorVanished("return of %s" % short(fn))
+            for m in rets:
+                v = m.ast.value
+                b = _unchain_regs(_res(fn, fnorm, m, v)) if v is not None else None
+                b = _unchain_regs(_res(fn, fnorm, m, b)) if b is not None else None
+                r.require(b is not None and any(b is c for c in base_calls), fn, fn.loc(m.ast),
+                          "%s returns %s, not the outcome of %s" % (short(fn), src(fn, v) if v is not None else "None", what))
+
+        gv = idx.func(NODE + "._get_version_from_servermap")
+        gr = idx.func(NODE + ".get_readable_version")
+        dv = idx.func(NODE + ".download_version")
+        mfv_init = idx.func("mutable.filenode:MutableFileVersion.__init__")
+        mfv_read = idx.func("mutable.filenode:MutableFileVersion._read")
+
+        # (a) download_version(servermap, version) -> get_readable_version(servermap, version) -> mfv.download_to_data()
+        dps = first_positional_params(dv)
+        if len(dps) < 2 or dps[1] != "version":
+            raise AnchorVanished("download_version(servermap, version, ..)")
+        dn = FlowNorm(dv)
+        gcalls = hands_on(dv, "get_readable_version", vpos(gr, "get_readable_version"), "download_version -> get_readable_version")
+        chain_returned(dv, dn, gcalls, None, "get_readable_version(servermap, version)")
+        dl = []
+        for x in registrations(dv):
+            t = x.target
+            if isinstance(t, ast.Lambda) and len(t.args.args) == 1 and isinstance(t.body, ast.Call) and isinstance(t.body.func, ast.Attribute) \
+                    and isinstance(t.body.func.value, ast.Name) and t.body.func.value.id == t.args.args[0].arg \
+                    and t.body.func.attr in ("download_to_data", "read", "_read", "_try_to_download_data"):
+                dl.append(x)
+        if not dl:
+            raise AnchorVanished("callback that downloads from the MutableFileVersion in download_version")
+        for x in dl:
+            r.site(dv, x.call, "download from the version object")
+            r.require(x.kind == "cb", dv, dv.loc(x.call), "the download from the version object is registered as %s" % x.kind)
+
+        # (b) get_readable_version(servermap, version) -> _get_version_from_servermap(.., version); MutableFileVersion(.., component 1, ..)
+        grn = FlowNorm(gr)
+        vcalls = hands_on(gr, "_get_version_from_servermap", vpos(gv, "_get_version_from_servermap"),
+                          "get_readable_version -> _get_version_from_servermap")
+        chain_returned(gr, grn, vcalls, None, "_get_version_from_servermap(mode, servermap, version)")
+        ipos = vpos(mfv_init, "MutableFileVersion.__init__")
+        built = 0
+        for x in registrations(gr):
+            t = x.target
+            nf = gr.nested.get(t.id) if isinstance(t, ast.Name) else None
+            if nf is None:
+                continue
+            mcs = calls_in_func(nf, "MutableFileVersion")
+            if not mcs:
+                continue
+            nps = first_positional_params(nf)
+            nfn = FlowNorm(nf)
+            for c in mcs:
+                built += 1
+                r.site(nf, c, "version object built for the chosen version")
+                r.require(x.kind == "cb" and not x.args and len(nps) == 1, gr, gr.loc(x.call), "%s is registered as %s with extra arguments" % (short(nf), x.kind))
+                a = arg(c, ipos, "version")
+                r.require(a is not None and len(nps) == 1 and _tuple_component(nf, nfn, node_of(nf, c), a, nps[0], 1), nf, nf.loc(c),
+                          "the MutableFileVersion is built for %s, not for the version that _get_version_from_servermap chose (component 1 "
+                          "of its result)" % (src(nf, a) if a is not None else "no version"))
+        if not built:
+            raise AnchorVanished("MutableFileVersion(..) built in a callback of get_readable_version")
+
+        # (c) _get_version_from_servermap: the selection callback gets `version`, and returns it or fails
+        gps = first_positional_params(gv)
+        sels = []
+        for x in registrations(gv):
+            t = x.target
+            if isinstance(t, ast.Name) and t.id in gv.nested:
+                nf = gv.nested[t.id]
+                nps = first_positional_params(nf)
+                if len(nps) == 2 and len(x.args) == 1:
+                    sels.append((x, nf, nps[1], x.args[0], True))
+                elif len(nps) == 1 and not x.args and "version" not in nf.params:
+                    sels.append((x, nf, "version", None, False))      # reads the request as a free variable
+            elif isinstance(t, ast.Lambda) and len(t.args.args) == 1 and not x.args and isinstance(t.body, ast.Call) \
+                    and isinstance(t.body.func, ast.Name) and t.body.func.id in gv.nested and len(t.body.args) == 2 and not t.body.keywords \
+                    and isinstance(t.body.args[0], ast.Name) and t.body.args[0].id == t.args.args[0].arg:
+                nf = gv.nested[t.body.func.id]
+                nps = first_positional_params(nf)
+                if len(nps) == 2:
+                    sels.append((x, nf, nps[1], t.body.args[1], True))
+
+        def ret_pairs(nf):
+            out = []
+            for m in nf.cfg().find(is_return):
+                v = _res(nf, FlowNorm(nf), m, m.ast.value) if m.ast.value is not None else None
+                if isinstance(v, ast.Tuple) and len(v.elts) == 2:
+                    out.append((m, v.elts[1]))
+                else:
+                    return None
+            return out or None
+        sels = [s for s in sels if ret_pairs(s[1]) is not None]
+        if len(sels) != 1:
+            raise AnchorVanished("the one callback of _get_version_from_servermap that returns (servermap, version) (found %d)" % len(sels))
+        x, sel, tracked, vexpr, explicit = sels[0]
+        r.site(gv, x.call, "selection callback is given the requested version")
+        r.require(x.kind == "cb", gv, gv.loc(x.call), "the version selection is registered as %s" % x.kind)
+        vpos(gv, "_get_version_from_servermap")
+        if explicit:
+            xn = node_of(gv, x.call)
+            nst, bad = _request_monitor(gv, "version", lambda m: [(vexpr, "sel")] if m is xn else [])
+            r.count(nst)
+            for (m, e, _w, v, req, w) in bad:
+                r.violation(gv, gv.loc(e), "_get_version_from_servermap gives %s to %s as the requested version, not its `version` argument: "
+                            "the best version of the (possibly narrower) servermap is picked instead of the one asked for (path: %s)" % (
+                                REQ_TXT[v] if v != "other" else src(gv, e), short(sel), w.brief()), w)
+        else:
+            for m in gv.cfg().find(stores("version")):
+                r.violation(gv, gv.loc(m.ast), "_get_version_from_servermap overwrites the requested version that %s reads" % short(sel))
+        # what comes after the selection on the same Deferred could replace its result
+        regs_gv = registrations(gv)
+        after = regs_gv[[y.call for y in regs_gv].index(x.call) + 1:]
+        for y in after:
+            if y.recv == x.recv and y.kind != "eb":
+                t = y.target
+                if not (isinstance(t, ast.Lambda) and len(t.args.args) == 1 and isinstance(t.body, ast.Name) and t.body.id == t.args.args[0].arg):
+                    raise AnalysisError("callback %r follows the version selection in _get_version_from_servermap: cannot tell what it returns" % y)
+        for m in gv.cfg().find(is_return):
+            v = m.ast.value
+            b = _unchain_regs(_res(gv, FlowNorm(gv), m, v)) if v is not None else None
+            r.require(isinstance(b, ast.Name) and b.id == x.recv, gv, gv.loc(m.ast),
+                      "_get_version_from_servermap returns %s, not the Deferred the version selection is registered on" % (
+                          src(gv, v) if v is not None else "None"))
+        pairs = ret_pairs(sel)
+        pmap = {id(m): e for (m, e) in pairs}
+        nst, bad = _request_monitor(sel, tracked, lambda m: [(pmap[id(m)], "ret")] if id(m) in pmap else [])
+        r.count(nst)
+        r.site(sel, pairs[0][0].ast, "a requested version is returned or the request fails")
+        for (m, e, _w, v, req, w) in bad:
+            r.violation(sel, sel.loc(m.ast), "%s can return %s although version `%s` was asked for%s: when the requested version is not "
+                        "recoverable in this servermap (a MODE_READ map stops early and may not see it) another version is silently "
+                        "substituted, so the repairer downloads and republishes OLDER contents over the newest ones; it has to fail "
+                        "(UnrecoverableFileError) instead (path: %s)" % (
+                            short(sel), "`%s` re-bound to a different version" % src(sel, e) if v == "other" else REQ_TXT[v], tracked,
+                            "" if req == "T" else " (the request is never examined)", w.brief()), w)
+
+        # (d) MutableFileVersion keeps the version it was built for and reads exactly that one
+        r.site(mfv_init, None, "self._version = version")
+        ivals = [(m, assign_value(m, "self._version")) for m in mfv_init.cfg().nodes if "self._version" in node_stores(m)]
+        if not ivals:
+            raise AnchorVanished("self._version = .. in MutableFileVersion.__init__")
+        nst, bad = _request_monitor(mfv_init, "version", lambda m: [(assign_value(m, "self._version"), "store")] if "self._version" in node_stores(m) else [])
+        r.count(nst)
+        for (m, e, _w, v, req, w) in bad:
+            r.violation(mfv_init, mfv_init.loc(m.ast), "MutableFileVersion.__init__ stores %s as its version, not the version it was built for" % (
+                src(mfv_init, e) if e is not None else "an opaque value"), w)
+        mcls = idx.cls("mutable.filenode:MutableFileVersion")
+        for (nme, mf) in sorted(mcls.methods.items()):
+            if mf is mfv_init:
+                continue
+            for m in mf.cfg().nodes:
+                if "self._version" in node_stores(m):
+                    r.violation(mf, mf.loc(m.ast), "%s re-binds self._version: the version object would read another version than the one it was built for" % short(mf))
+        rn = FlowNorm(mfv_read)
+        rcs = calls_in_func(mfv_read, "Retrieve")
+        if not rcs:
+            raise AnchorVanished("Retrieve(..) in MutableFileVersion._read")
+        for c in rcs:
+            r.site(mfv_read, c, "retrieve self._version")
+            m = node_of(mfv_read, c)
+            a = arg(c, 3, "verinfo")
+            r.require(a is not None and rn.norm(m, a) == "self._version", mfv_read, mfv_read.loc(c),
+                      "MutableFileVersion._read retrieves version %s, not the version this object was built for" % (src(mfv_read, a) if a is not None else "?"))
 
 
 def call_name_of(e):
